@@ -75,7 +75,7 @@ theorem pps_are_dirs (es : List (Entry β)) (wf : WFArchive es) (e : Entry β) (
   obtain ⟨k, h1, h2, rfl⟩ := (mem_pps (fpOf e) [] q).mp hq
   simpa using ancestors_are_dirs es wf _ e he (Nat.le_refl _) k h1 h2
 
-theorem fpOf_strip (stored : String → Bool) (e : Entry β) : fpOf (stripE stored e) = fpOf e := by
+theorem fpOf_strip (stored : String → Bool) (pad : String → List β) (e : Entry β) : fpOf (stripE stored pad e) = fpOf e := by
   cases e <;> rfl
 
 /-- Entries of a well-formed archive are determined by their path. -/
@@ -191,10 +191,10 @@ theorem present_dir_iff (stored : String → Bool) (pre : List (Entry β)) (pc :
     (p : String) (m : Meta) : Present stored pre pc rs (.dir p m : Entry β) ↔ ((.dir p m : Entry β) ∈ pre ∨ fpOf (.dir p m : Entry β) ∈ pc) := Iff.rfl
 
 /-- Processing a directory entry of the target archive. -/
-theorem step_dir (hashOf : List β → H) (stored : String → Bool) (es : List (Entry β)) (F0 : List (String × RFile H)) (EXT : List String)
+theorem step_dir (hashOf : List β → H) (stored : String → Bool) (pad : String → List β) (es : List (Entry β)) (F0 : List (String × RFile H)) (EXT : List String)
     (ctx : TCtx hashOf es stored F0 EXT) (pre : List (Entry β)) (p : String) (m : Meta) (post : List (Entry β))
     (hs : es = pre ++ (.dir p m) :: post) (st : RSt β) (seen : List String) (inv : TInv stored es F0 EXT pre st seen) :
-    ∃ st', processEntry hashOf F0 true st seen (stripE stored (.dir p m)) = some (st', seen) ∧
+    ∃ st', processEntry hashOf F0 true st seen (stripE stored pad (.dir p m)) = some (st', seen) ∧
       TInv stored es F0 EXT (pre ++ [.dir p m]) st' seen := by
   have wf := ctx.wf
   -- the table has no entry for a directory
@@ -353,10 +353,10 @@ theorem step_dir (hashOf : List β → H) (stored : String → Bool) (es : List 
         · simp [nodeT] }
 
 /-- Processing a symbolic link entry of the target archive. -/
-theorem step_symlink (hashOf : List β → H) (stored : String → Bool) (es : List (Entry β)) (F0 : List (String × RFile H)) (EXT : List String)
+theorem step_symlink (hashOf : List β → H) (stored : String → Bool) (pad : String → List β) (es : List (Entry β)) (F0 : List (String × RFile H)) (EXT : List String)
     (ctx : TCtx hashOf es stored F0 EXT) (pre : List (Entry β)) (p : String) (m : Meta) (t : String) (post : List (Entry β))
     (hs : es = pre ++ (.symlink p m t) :: post) (st : RSt β) (seen : List String) (inv : TInv stored es F0 EXT pre st seen) :
-    ∃ st', processEntry hashOf F0 true st seen (stripE stored (.symlink p m t)) = some (st', seen) ∧
+    ∃ st', processEntry hashOf F0 true st seen (stripE stored pad (.symlink p m t)) = some (st', seen) ∧
       TInv stored es F0 EXT (pre ++ [.symlink p m t]) st' seen := by
   have wf := ctx.wf
   have hnokey : ∀ info, (keyE (.symlink p m t : Entry β), info) ∉ F0 := by
@@ -483,11 +483,11 @@ theorem mapGet_of_mem {V : Type} (m : List (String × V)) (hn : (m.map (·.1)).N
       exact ih hn.2 hin
 
 /-- Processing, in the target archive, the (data-less) entry of a file whose bytes live elsewhere. -/
-theorem step_ext (hashOf : List β → H) (stored : String → Bool) (es : List (Entry β)) (F0 : List (String × RFile H)) (EXT : List String)
+theorem step_ext (hashOf : List β → H) (stored : String → Bool) (pad : String → List β) (es : List (Entry β)) (F0 : List (String × RFile H)) (EXT : List String)
     (ctx : TCtx hashOf es stored F0 EXT) (pre : List (Entry β)) (p : String) (m : Meta) (d : List β) (post : List (Entry β))
     (hs : es = pre ++ (.file p m d) :: post) (hext : isExtE stored (.file p m d : Entry β) = true)
     (st : RSt β) (seen : List String) (inv : TInv stored es F0 EXT pre st seen) :
-    ∃ st', processEntry hashOf F0 true st seen (stripE stored (.file p m d)) = some (st', seen) ∧
+    ∃ st', processEntry hashOf F0 true st seen (stripE stored pad (.file p m d)) = some (st', seen) ∧
       TInv stored es F0 EXT (pre ++ [.file p m d]) st' seen := by
   have wf := ctx.wf
   have he : (.file p m d : Entry β) ∈ es := by rw [hs]; simp
